@@ -40,6 +40,26 @@ theorem elementFull_eq (sh : List Nat) (inds : List Int) :
   rw [← map_flat_allIdx sh, List.map_map]
   rfl
 
+/-- Re-ordered positive-step slices are positive-step slices (a missing entry is `slice(None)`). -/
+theorem reorderSlices_pos (order : List Nat) (sls : List ViewItem)
+    (hp : sls.all Spec.posSliceEntry = true) : (reorderSlices order sls).all Spec.posSliceEntry = true := by
+  simp only [reorderSlices, List.all_map, List.all_eq_true, Function.comp_def]
+  intro m _
+  simp only [List.getD]
+  cases hm : sls[m]? with
+  | none => rfl
+  | some it =>
+    simp only [Option.getD_some]
+    exact (List.all_eq_true.mp hp) it (List.mem_of_getElem? hm)
+
+/-- The coordinates of the matching point of the other dataset along the axes `ks`. -/
+theorem map_otherCoord (links : List (Option Nat)) (idx : List Nat) (ks : List Nat)
+    (h : ks.all (fun k => links.contains (some k)) = true) :
+    (ks.map fun k => idx.getD (axisOf links k) 0) = ks.map fun k => otherCoord links idx k := by
+  apply List.map_congr_left
+  intro k hk
+  exact (otherCoord_eq_getD_axisOf links idx k ((List.all_eq_true.mp h) k hk)).symm
+
 /-- `state.to_mask(data, view)` is the gather of the selection's membership test, for every
 selection class (and every Boolean combination), every shape and every positive-step view. -/
 theorem mask_gather (sh : List Nat) (v : View) (hv : v.posStep = true) : ∀ st : State,
@@ -56,6 +76,22 @@ theorem mask_gather (sh : List Nat) (v : View) (hv : v.posStep = true) : ∀ st 
     simp only [Spec.stateWf, Bool.and_eq_true] at hw
     simp only [Impl.mask, Spec.holds, attr_gather sh a hw.1 v, attr_gather sh b hw.2 v]
     exact (gather_zip sh (Spec.attrAt sh a) (Spec.attrAt sh b) p v).symm
+  | .predN as p, hw => by
+    simp only [Spec.stateWf] at hw
+    simp only [Impl.mask, Spec.holds, attrsN_gather sh as hw v]
+    exact (gather_comp sh (fun idx => as.map fun a => Spec.attrAt sh a idx) p v).symm
+  | .sliceOf order sls, hw => by
+    simp only [Spec.stateWf, Bool.and_eq_true, beq_iff_eq] at hw
+    simp only [Impl.mask, Spec.holds]
+    exact sliceMask_gather sh (reorderSlices order sls) v (by simp [reorderSlices, hw.1])
+      (reorderSlices_pos order sls hw.2) hv
+  | .maskOf links ks msh m, hw => by
+    simp only [Spec.stateWf, Bool.and_eq_true, Bool.not_eq_true'] at hw
+    simp only [Impl.mask, Spec.holds]
+    rw [gather_noneToSlice sh hw.2 _ v]
+    congr 1
+    funext idx
+    rw [map_otherCoord links idx ks hw.1]
   | .roiPix axes roi, _ => by
     simp only [Impl.mask, Spec.holds]
     exact roiPix_gather sh axes roi v
